@@ -13,7 +13,8 @@
    fragment validation and re-encoding, i.e. the part of u.String() after the '@' that ends the
    userinfo ([post] = None when url.Parse fails).
 
-   check_case codes: 0 ok; 1 model <> implementation (oracle holds); 2 panic; 3 two locations that
+   check_case codes: 0 ok; 1 model <> implementation (oracle holds); 2 panic (the model never panics
+   since the F-C50-1 fix: strings without the rest: prefix are returned unchanged); 3 two locations that
    differ only in the password are displayed differently (password-dependent output);
    4 the output contains the password marker. *)
 From Restic Require Import Base.Prelude.
@@ -169,7 +170,7 @@ Inductive res := ROut (o : bytes) | RPanic.
 
 (* rest.StripPassword *)
 Definition strip_rest (loc : bytes) (post : option bytes) : res :=
-  if (N.of_nat (length loc) <? 5) then RPanic                      (* s[:5] *)
+  if negb (is_prefix (rest_scheme ++ [58]) loc) then ROut loc     (* !strings.HasPrefix(s, "rest:") *)
   else
     let scheme := firstn 5 loc in
     let s := prepare (skipn 5 loc) in
